@@ -530,4 +530,96 @@ def no_shared_containers(repo: Repo) -> RuleRun:
 no_shared_containers.rule_id = "C19.NO-SHARED-CONTAINERS"
 
 
-RULES = [grid_roles, slice_roles, partition, merged_roles, assemble_walk, backport_local, delete_survives, tier_order, no_class_state, addressable, scalar_amount, stack_chain, arguments_untouched, private_coordinates, no_shared_containers, partition_lists]
+
+def ring_order(repo: Repo) -> RuleRun:
+    """'grid[k][j][i] is the operation in column i ...; ring.shell[i] sits on the i-th segment': the first segment of an Annulus is
+    drawn from angle 0 to +segment_angle (its far corners are the near ones turned by +segment_angle) and segment i is that face turned
+    by i segment angles IN THE SAME SENSE - so segment i starts where segment i - 1 ends, and shell[i] of a ring lies on shell[i] of
+    the disk that fills it. Abstract run of Annulus.__init__ (geometry opaque, angles in floating point): the placement angles are
+    i times the angle the first face spans, sign included."""
+    from ..peval import NO_MATCH, Evaluator, NotEvaluable, Obj, Raised, Sym
+
+    r = RuleRun(PROP, "C19.RING-ORDER", floor=1, what="segment i of an Annulus is its first face turned by i times the (signed) angle that face spans")
+    cls = repo.cls("construct.flat.sketches.annulus.Annulus")
+    fn = cls.methods["__init__"]
+    extent, place = [], []
+    ring = Obj("ring", cls=cls)
+
+    def hook(ev, call: ast.Call, name):
+        nm = (name or "").split(".")[-1]
+        if nm in ("asarray", "array") and call.args:
+            return ev.eval(call.args[0])
+        if nm == "unit_vector":
+            return Sym("unit")
+        if name in ("f.rotate", "functions.rotate") and len(call.args) >= 2:
+            extent.append(ev.eval(call.args[1]))
+            return Sym("turned-point")
+        if nm == "Face":
+            for a in call.args:
+                ev.eval(a)
+            return Obj("face")
+        if nm == "Origin":
+            return Sym("origin-edge")
+        if isinstance(call.func, ast.Attribute) and call.func.attr == "copy":
+            return Obj("face-copy")
+        if isinstance(call.func, ast.Attribute) and call.func.attr == "rotate" and call.args:
+            recv = ev.eval(call.func.value)
+            if isinstance(recv, Obj) and recv._name == "face-copy":
+                place.append(ev.eval(call.args[0]))
+                return recv
+        return NO_MATCH
+
+    def arith(op, a, b):
+        num = lambda x: isinstance(x, (int, float)) and not isinstance(x, bool)  # noqa: E731
+        if num(a) and num(b):
+            if isinstance(op, ast.Div):
+                return a / b
+            if isinstance(op, ast.Mult):
+                return a * b
+            if isinstance(op, ast.Add):
+                return a + b
+            if isinstance(op, ast.Sub):
+                return a - b
+        if isinstance(a, Sym) or isinstance(b, Sym):
+            return Sym("geom")
+        return NO_MATCH
+
+    import math
+
+    ev = Evaluator(repo=repo, module=fn.module, call_hook=hook, bind={"np.pi": math.pi, "numpy.pi": math.pi, "math.pi": math.pi})
+    ev.binop_hook = arith
+    ev.float_arith = True
+    try:
+        ev.call_funcinfo(fn, [ring, Sym("center"), Sym("outer"), Sym("normal"), 0.5, 8])
+    except (Raised, NotEvaluable) as err:
+        if not ring.has("shell"):
+            raise AnalysisError(f"Annulus.__init__ not evaluable up to the list of segments: {err}") from err
+    r.require(len(extent) >= 2 and all(isinstance(a, float) for a in extent) and len(set(extent)) == 1, f"Annulus.__init__: the first face is not drawn with one numeric segment angle (f.rotate angles: {extent})")
+    r.require(len(place) == 8 and all(isinstance(a, (int, float)) for a in place), f"Annulus.__init__: 8 placement angles expected, got {place}")
+    want = [k * extent[0] for k in range(8)]
+    r.check(
+        all(abs(a - b) < 1e-12 for a, b in zip(place, want)),
+        fn,
+        "segment i = first face turned by i x the angle it spans",
+        f"Annulus(n_segments=8): the first face spans {extent[0]:.4f} rad but segment i is that face turned by {[round(a, 4) for a in place]}: the segments are laid out in the opposite sense - ring.shell[1] is the LAST "
+        "segment going round, Mesh.delete(ring.shell[1]) removes a block elsewhere and ring.shell[i] no longer sits on Cylinder.fill(ring).shell[i]",
+        fn.node,
+        key="placement",
+    )
+    return r
+
+
+ring_order.rule_id = "C19.RING-ORDER"
+
+
+def no_memo(repo: Repo) -> RuleRun:
+    """'core and shell lists partition the operations / faces' - as the sketch is NOW: nothing in the construct package memoises a view of state that later construction steps or transformations change (a half or full spline disk is assembled from quarters after `core` was first read). Same rule body as C03.NO-MEMO."""
+    from ..memo import memo_rule
+
+    return memo_rule(repo, PROP, "C19.NO-MEMO", ("construct.", "base."), floor=0)
+
+
+no_memo.rule_id = "C19.NO-MEMO"
+
+
+RULES = [grid_roles, slice_roles, partition, merged_roles, assemble_walk, backport_local, delete_survives, tier_order, no_class_state, addressable, scalar_amount, stack_chain, arguments_untouched, private_coordinates, no_shared_containers, partition_lists, ring_order, no_memo]
